@@ -136,6 +136,13 @@ class CallMixin:
                 return fv.data['call'](self, st, node, args, kws, k)
         if isinstance(fv, VObj) and fv.sort in self.callable_sorts:
             return k(st, self.callable_sorts[fv.sort](self, st, fv, args))
+        if isinstance(fv, VClass) and (fv.name + '.__init__') in self.contracts:
+            c = self.contracts[fv.name + '.__init__']
+            obj = self.make_record(fv.name, st, c.self_fields, c.extra.get('dynamic', ()))
+            rec = st.heap[obj.rid]
+            for d in rec.present:                    # a new object has none of its dynamic attributes yet
+                rec.present[d] = z3.BoolVal(False)
+            return self.call_contract(fv.name + '.__init__', obj, args, kws, st, node, lambda s, v: k(s, obj))
         if isinstance(fv, VClass):
             name = fv.name
             if name.split('.')[-1] in EXC_PARENT and name not in ('object',):
@@ -251,6 +258,13 @@ class CallMixin:
             res = NONE
             if exc is None and c.returns is not None:
                 res = fresh_val(c.returns, 'ret_' + qual.split('.')[-1], s)
+            for tgt, e in c.assigns.items():
+                v = self.ev_spec_val(e, s)
+                base = self.resolve_static(ast.parse(tgt, mode='eval').body.value, s)
+                h = s.heap[base.rid]
+                f = dict(h.fields)
+                f[tgt.split('.')[-1]] = v
+                s.heap[base.rid] = HRec(h.cls, f, h.present)
             s.frames[callee_fid]['_ret'] = res
             if 'result' not in env:
                 s.frames[callee_fid]['result'] = res
